@@ -273,8 +273,19 @@ def gen_case(rng, tier):
         x2 = float(g.choice([-1.0, -1.0, 0.0, 1e-6, 0.1, 0.5, 1.0, 2.0, 2.5, 8.0, 10.0, 50.0, 1e3, 1e6,
                              float(10.0 ** g.uniform(-3, 3))]))
         queries.append({"kind": kind, "y_obs": [float(v) for v in yo], "x2_max": x2})
-    # always: the unrestricted estimate and a zero-width window on an exact entry
+    # always: a zero-width window on an exact entry
     queries.append({"kind": "entry", "y_obs": [float(v) for v in y[int(g.integers(0, n))]], "x2_max": 0.0})
+    # always: one observation at a controlled chi-square distance d^2 from its NEAREST entry, sweeping the underflow
+    # band of the weights (total weight 1e-290 .. subnormal .. 0: d = 36 .. 39 noise standard deviations).  Going
+    # outward from the extreme entry along an eigenvector v_j makes that entry the nearest one, at chi2 = d^2 exactly.
+    for _ in range(2):
+        j = int(g.integers(0, m))
+        pj = y @ v_[:, j]
+        k = int(np.argmax(pj))
+        dist = float(g.uniform(36.0, 39.0)) if g.random() < 0.85 else float(g.uniform(30.0, 45.0))
+        yo = y[k] + v_[:, j] * math.sqrt(float(w_[j])) * dist
+        queries.append({"kind": "band", "y_obs": [float(v) for v in yo],
+                        "x2_max": float(g.choice([-1.0, -1.0, 1e3, 2e3, 1e6]))})
     taus = sorted({0.0, 1.0, 0.5, 0.01, 0.99} | {float(t) for t in g.random(int(g.integers(0, 5)))})
     perm = [int(i) for i in g.permutation(n)] if g.random() < 0.8 else list(range(n))[::-1]
     return {"op": "bmci", "meta": {"n": n, "m": m, "s": sstyle, "y": ystyle, "x": xstyle},
@@ -444,6 +455,40 @@ def run_case(ck, case, use_model=True):
         if not (0 <= il <= iu <= n) or (not restricted and (il, iu) != (0, n)) or len(ro["ws"]) != iu - il:
             ck.violation("window-shape", f"weights() returned window ({il},{iu}) with {len(ro['ws'])} weights for n={n}", c1)
             continue
+        # ---- predict / cdf / quantiles against the weights that weights() itself reports (longdouble holds subnormal
+        #      doubles exactly): a number equal to the weighted statistics whenever some weight is non-zero, NaN exactly
+        #      when all vanish -- also where the total weight is subnormal (the band before total underflow)
+        ws_r = ro["ws"]
+        xwin = xsorted[il:iu]
+        if not np.any(ws_r > 0):
+            ck.count("reported weights all zero / empty window")
+            if not (math.isnan(ro["mean"]) and math.isnan(ro["sigma"]) and ro["cdf_nan"] and np.all(np.isnan(ro["q"]))):
+                ck.violation("no-weight-not-nan", f"x2_max={x2}: weights() reports no non-zero weight but predict={ro['mean']},{ro['sigma']} "
+                                                  f"cdf_nan={ro['cdf_nan']} quantiles={ro['q'][:3]}", c1)
+        else:
+            wl = ws_r.astype(LD)
+            cl = wl.sum()
+            cf = float(cl)
+            if cf < 1e-290:
+                ck.count("reported total weight below 1e-290" + (" (subnormal)" if cf < 2.3e-308 else ""))
+            if not (math.isfinite(ro["mean"]) and math.isfinite(ro["sigma"])) or ro["cdf_nan"] or not np.all(np.isfinite(ro["q"])):
+                ck.violation("nan-with-weight", f"x2_max={x2}: weights() reports non-zero weights (total {cf:.4g}) but predict={ro['mean']},{ro['sigma']} "
+                                                f"cdf_nan={ro['cdf_nan']} quantiles={ro['q'][:3]} (must be the weighted statistics, finite)", c1)
+                continue
+            xl = xwin.astype(LD)
+            mref = float((wl * xl).sum() / cl)
+            vref = float((wl * (xl - (wl * xl).sum() / cl) ** 2).sum() / cl)
+            kk = iu - il
+            scale_r = float(np.max(np.abs(xwin))) or 1.0
+            rw_r = float(xwin.max() - xwin.min())
+            # products x*w of subnormal weights are rounded to multiples of 2^-1074 (absolute), then divided by c
+            subn = 8 * kk * 2.0 ** -1074 / cf
+            dm_r = 8 * kk * EPS * scale_r
+            tol_m = 1e-9 * scale_r + subn
+            tol_v = 1e-6 * vref + dm_r * dm_r + subn + 2 * subn * rw_r + subn * subn
+            if abs(ro["mean"] - mref) > tol_m or abs(ro["sigma"] ** 2 - vref) > tol_v or ro["sigma"] < 0:
+                ck.violation("formula-reported-weights", f"x2_max={x2}: predict=({ro['mean']!r},{ro['sigma']!r}) but the weights reported by weights() "
+                                                         f"(total {cf:.4g}) give mean {mref!r}, std {math.sqrt(vref)!r}", c1)
         # ---- pruning soundness, entry by entry
         if restricted:
             out_idx = np.where(~inwin)[0]
